@@ -124,6 +124,12 @@ Definition p_aop (t : tree) : option aop :=
   | _ => None
   end.
 
+Definition p_wavmeta (t : tree) : option (list N * N) :=
+  match t with
+  | L [path; I d] => match p_bytes path with Some p => Some (p, d) | None => None end
+  | _ => None
+  end.
+
 Definition run (t : tree) : tree :=
   match t with
   | L [I 1; bs] =>          (* unedited load + save, bytes to bytes *)
@@ -142,6 +148,18 @@ Definition run (t : tree) : tree :=
       | Some b, Some ls, Some cs, Some ss, Some os =>
           t_result t_bytes (run_scenario b {| p_locs := ls; p_cuwps := cs; p_switches := ss |} os)
       | _, _, _, _, _ => t_bad
+      end
+  | L [I 4; bs; L [L locs; cuwps; L sws]; ops; wm] =>  (* an authored scenario saved with WAV metadata *)
+      match p_bytes bs, p_indexed (fun k => p_loc (k + 1)) locs 0, p_list p_cuwp cuwps,
+            p_indexed (fun k => p_switch (k + 1)) sws 0, p_list p_aop ops, p_list p_wavmeta wm with
+      | Some b, Some ls, Some cs, Some ss, Some os, Some w =>
+          t_result t_bytes (run_scenario_w w b {| p_locs := ls; p_cuwps := cs; p_switches := ss |} os)
+      | _, _, _, _, _, _ => t_bad
+      end
+  | L [I 5; bs; wm] =>      (* unedited load + save with WAV metadata *)
+      match p_bytes bs, p_list p_wavmeta wm with
+      | Some b, Some w => t_result t_bytes (load_save_w w b)
+      | _, _ => t_bad
       end
   | _ => t_bad
   end.
